@@ -11,7 +11,8 @@ RULE = ("K, five streams on the real classes in float64: (wave) WaveCharacter wi
         "6*sigma, and the ValueError for a spectral width with a phase shift; (genv) GaussianWindow.get_window incl. "
         "sigma<=0 errors; (custom) CustomTimeSignalProfile with dyadic dt/start so that sample times are exact, times at "
         "samples, between samples (fractions 0.25/0.5/0.75 and random), before the first, after the last sample, both "
-        "interpolation modes, outside_value, and the four constructor errors. Model compared to 1e-9 (exactly for custom). "
+        "interpolation modes, outside_value, signal dtypes float64 / float32 / int32 / Python int list / 0-1 list / Python float list "
+        "(20 forced linear-mode cases of the non-float64 kinds in every quick run, neighbouring samples distinct), and the four constructor errors. Model compared to 1e-9 (exactly for custom). "
         "Independent oracle: period*frequency = 1, wavelength = c*period; |amplitude| <= 1; ramp value 0 for t<=0, t/(n*T) "
         "inside, 1 after; envelope in (0,1] with 1 at the centre; custom signal exact at samples, linear between. "
         "non-trivial = every case except a WaveCharacter given by its period.")
@@ -213,14 +214,26 @@ def genv_property(case, got):
 
 
 # ---------------------------------------------------------------------------------------------- custom
-def gen_custom(rng):
+def gen_custom(rng, force_dtype=None):
     n = rng.randint(2, 7)
     dt = rng.choice([0.125, 0.5, 2.0, 0.25])
     start = rng.choice([0.0, 0.0, 1.5, -0.75, 4.0])
-    sig = [float(rng.randint(-8, 8)) / 4 for _ in range(n)]
+    sdt = rng.choice(["float64", "float64", "float32", "int32", "pylist-int", "bool01", "pylist-float"]) if force_dtype is None else force_dtype
+    if sdt in ("int32", "pylist-int"):
+        sig = [float(rng.randint(-6, 6)) for _ in range(n)]
+        if len(set(sig)) == 1:
+            sig[0] += 3.0                      # neighbouring samples must differ, else interpolation is invisible
+    elif sdt == "bool01":
+        sig = [float(rng.randint(0, 1)) for _ in range(n)]
+        sig[0], sig[1] = 0.0, 1.0
+    else:
+        sig = [float(rng.randint(-8, 8)) / 4 for _ in range(n)]
     kind = rng.randint(0, 11)
-    case = {"stream": "custom", "signal": sig, "dt": dt, "start": start, "interp": rng.choice(["linear", "linear", "nearest"]),
+    case = {"stream": "custom", "signal": sig, "sig_dtype": sdt, "dt": dt, "start": start,
+            "interp": rng.choice(["linear", "linear", "nearest"]) if force_dtype is None else "linear",
             "outside": rng.choice([0.0, 0.0, -7.0])}
+    if force_dtype is not None:
+        kind = 5
     if kind == 0:
         case["signal"] = sig[:1]
     elif kind == 1:
@@ -239,7 +252,16 @@ def gen_custom(rng):
 def impl_custom(case):
     e = E()
     try:
-        p = e["CT"](signal=e["jnp"].asarray(case["signal"], dtype=e["jnp"].float64), time_step_duration=case["dt"],
+        sdt = case.get("sig_dtype", "float64")
+        if sdt in ("pylist-int", "bool01"):
+            sig = [int(x) for x in case["signal"]]                 # a plain Python list of ints (0/1 for bool01)
+        elif sdt == "pylist-float":
+            sig = [float(x) for x in case["signal"]]
+        elif sdt == "int32":
+            sig = e["jnp"].asarray([int(x) for x in case["signal"]], dtype=e["jnp"].int32)
+        else:
+            sig = e["jnp"].asarray(case["signal"], dtype=getattr(e["jnp"], sdt))
+        p = e["CT"](signal=sig, time_step_duration=case["dt"],
                     start_time=case["start"], interpolation=case["interp"], outside_value=case["outside"])
     except ValueError:
         return None
@@ -323,14 +345,15 @@ def run(ctx):
         if got is not None:
             lines.append(model_line(case, fr))
             post.append((case, got, 1e-9))
-    for name, n in (("cw", ctx.scale(60, 600)), ("genv", ctx.scale(40, 400)), ("custom", ctx.scale(120, 1200))):
+    forced = ["int32", "pylist-int", "bool01", "float32", "pylist-float"] * ctx.scale(4, 20)
+    for name, n in (("cw", ctx.scale(60, 600)), ("genv", ctx.scale(40, 400)), ("custom", ctx.scale(120, 1200) + len(forced))):
         gen, impl, prop = STREAMS[name]
         for i in range(n):
-            case = gen(rng)
+            case = gen(rng) if not (name == "custom" and i < len(forced)) else gen_custom(rng, forced[i])
             got = impl(case)
             ctx.case(sample=case if i == 0 and name == "custom" else None, nontrivial=(name, i), stream=name,
                      outcome="error" if got is None else "ok",
-                     **({"interp": case["interp"]} if name == "custom" else {}), **({"n_startup": case["ns"]} if name == "cw" else {}))
+                     **({"interp": case["interp"], "sig_dtype": case["sig_dtype"]} if name == "custom" else {}), **({"n_startup": case["ns"]} if name == "cw" else {}))
             ctx.impl_property_evals += 1
             d = prop(case, got)
             if d:
